@@ -3,7 +3,7 @@
 Oracle: the list model (row-major coordinates for nonzero, cell-wise pick for where,
 per-row windows for ragged_slice, row concatenation, padding)."""
 import numpy as np
-from ..core import CTX, attempt, held, violated, undefined, same_array, peek, short, lists_same
+from ..core import CTX, attempt, held, violated, undefined, same_array, peek, short, lists_same, same_dtype
 from .. import gen, contracts
 from . import c02
 
@@ -57,7 +57,7 @@ def check_rows(got, exp, desc, tags, dtype=None):
         if not same_array(g, e, dtype=False):
             return violated("%s: row %d is %s, expected %s" % (desc, i, short(g, 140), short(np.asarray(e), 140)), tags,
                             got=[np.asarray(r).tolist() for r in grows], expected=[np.asarray(x).tolist() for x in exp])
-    if dtype is not None and got.dtype != dtype:
+    if dtype is not None and not same_dtype(got.dtype, dtype):
         return violated("%s has dtype %s, expected %s" % (desc, got.dtype, dtype), tags + ["dtype-differs"])
     return None
 
@@ -119,7 +119,7 @@ def run(case):
         edt = np.dtype(case["dtype2"]) if case.get("dtype2") else dt
         fill = {"zeros_like": 0, "ones_like": 1, "empty_like": None}[case["fn"]]
         g = a.value
-        if not isinstance(g, lib.RaggedArray) or np.asarray(g.lengths).tolist() != lens or g.dtype != edt or len(g) != n:
+        if not isinstance(g, lib.RaggedArray) or np.asarray(g.lengths).tolist() != lens or not same_dtype(g.dtype, edt) or len(g) != n:
             return violated("%s gives lengths %s dtype %s" % (desc, short(getattr(g, "lengths", None)), getattr(g, "dtype", None)), tags)
         if fill is not None and not np.all(g.ravel() == fill):
             return violated("%s is not filled with %s: %s" % (desc, fill, short(g)), tags)
